@@ -252,6 +252,92 @@ theorem trans_C17_SetReservedCapacity_v2 (r : T_v2_sharedResource) (v : Nat) (hf
 theorem trans_C06_ProvisionedResource (r : T_v1_ProvisionedResource) :
     v1_pr_Capacity r = r.maxCapacity ∧ v1_pr_MaxCapacity r = r.maxCapacity := ⟨rfl, rfl⟩
 
+/-! ### Batcher: the admission checks at the head of `Enqueue`, and `applyDefaults`
+
+`v?_enqueueAdmit` is the translation of everything `Enqueue` does BEFORE its first `r.incTarget(...)`; the calls
+`op.Watcher()`, `op.Cost()`, `op.Attempt()`, `watcher.MaxAttempts()`, `r.ratelimiter.MaxCapacity()` are its inputs
+(user getters are taken to be pure). It returns the name of the error value returned, "" when control reaches
+the counting step. -/
+
+def errTag : Option Err → String
+  | none => ""
+  | some .noOperation => "NoOperationError"
+  | some .noWatcher => "NoWatcherError"
+  | some .tooExpensive => "TooExpensiveError"
+  | some .tooManyAttempts => "TooManyAttemptsError"
+
+/-- the real `Enqueue` prefix IS the model's `validate` (C14's theorems are about `validate`), for every input -/
+theorem trans_C14_enqueueAdmit_v1 (r : T_v1_Batcher_cfg) (op w : Bool) (cost maxCap maxAtt att : Nat) :
+    v1_enqueueAdmit r op w cost maxCap maxAtt att =
+      errTag (validate { hasOp := op, hasWatcher := w, limited := r.ratelimiter, maxCap := maxCap, cost := cost,
+                         maxAttempts := maxAtt, attempt := att }) := by
+  cases op <;> cases w <;> cases hr : r.ratelimiter <;>
+    simp [v1_enqueueAdmit, validate, errTag, hr] <;> repeat' split
+  all_goals (first | rfl | omega | simp_all [errTag] | (exfalso; simp_all; omega))
+
+theorem trans_C14_enqueueAdmit_v2 (r : T_v2_batcher_cfg) (op w : Bool) (cost maxCap maxAtt att : Nat) :
+    v2_enqueueAdmit r op w cost maxCap maxAtt att =
+      errTag (validate { hasOp := op, hasWatcher := w, limited := r.ratelimiter, maxCap := maxCap, cost := cost,
+                         maxAttempts := maxAtt, attempt := att }) := by
+  cases op <;> cases w <;> cases hr : r.ratelimiter <;>
+    simp [v2_enqueueAdmit, validate, errTag, hr] <;> repeat' split
+  all_goals (first | rfl | omega | simp_all [errTag] | (exfalso; simp_all; omega))
+
+/-- nothing is counted for a rejected operation: the prefix ends before the first `incTarget` by construction
+(the translator cuts there), and it returns an error exactly when `validate` does -/
+theorem trans_C14_admit_passes_iff_v2 (r : T_v2_batcher_cfg) (op w : Bool) (cost maxCap maxAtt att : Nat) :
+    v2_enqueueAdmit r op w cost maxCap maxAtt att = "" ↔
+      validate { hasOp := op, hasWatcher := w, limited := r.ratelimiter, maxCap := maxCap, cost := cost,
+                 maxAttempts := maxAtt, attempt := att } = none := by
+  rw [trans_C14_enqueueAdmit_v2]
+  cases validate _ with
+  | none => simp [errTag]
+  | some e => cases e <;> simp [errTag]
+
+/-- `applyDefaults` as the machines assume it (`applyDefault`): a non-positive interval becomes the documented
+default, a positive one is kept; nothing else in the record changes -/
+theorem trans_C02_C11_C12_C13_C19_applyDefaults_v1 (r : T_v1_Batcher_cfg) :
+    v1_applyDefaults r =
+      { r with flushInterval := applyDefault r.flushInterval defFlush,
+               capacityInterval := applyDefault r.capacityInterval defCap,
+               auditInterval := applyDefault r.auditInterval defAudit,
+               maxOperationTime := applyDefault r.maxOperationTime defMot,
+               pauseTime := applyDefault r.pauseTime defPause } := by
+  obtain ⟨rl, a, b, c, d, e⟩ := r
+  by_cases h1 : a ≤ 0 <;> by_cases h2 : b ≤ 0 <;> by_cases h3 : c ≤ 0 <;> by_cases h4 : d ≤ 0 <;> by_cases h5 : e ≤ 0 <;>
+    simp [v1_applyDefaults, applyDefault, defFlush, defCap, defAudit, defMot, defPause, h1, h2, h3, h4, h5] <;>
+    (try (refine ⟨?_, ?_, ?_, ?_, ?_⟩)) <;> omega
+
+theorem trans_C02_C11_C12_C13_C19_applyDefaults_v2 (r : T_v2_batcher_cfg) :
+    v2_applyDefaults r =
+      { r with flushInterval := applyDefault r.flushInterval defFlush,
+               capacityInterval := applyDefault r.capacityInterval defCap,
+               auditInterval := applyDefault r.auditInterval defAudit,
+               maxOperationTime := applyDefault r.maxOperationTime defMot,
+               pauseTime := applyDefault r.pauseTime defPause } := by
+  obtain ⟨rl, a, b, c, d, e⟩ := r
+  by_cases h1 : a ≤ 0 <;> by_cases h2 : b ≤ 0 <;> by_cases h3 : c ≤ 0 <;> by_cases h4 : d ≤ 0 <;> by_cases h5 : e ≤ 0 <;>
+    simp [v2_applyDefaults, applyDefault, defFlush, defCap, defAudit, defMot, defPause, h1, h2, h3, h4, h5] <;>
+    (try (refine ⟨?_, ?_, ?_, ?_, ?_⟩)) <;> omega
+
+/-- after `applyDefaults` every interval the loop hands to `time.NewTicker` / `time.Sleep` is positive
+(`NewTicker` panics on a non-positive one) -/
+theorem trans_C02_C12_C13_C19_intervals_positive_v2 (r : T_v2_batcher_cfg) :
+    0 < (v2_applyDefaults r).flushInterval ∧ 0 < (v2_applyDefaults r).capacityInterval ∧
+    0 < (v2_applyDefaults r).auditInterval ∧ 0 < (v2_applyDefaults r).maxOperationTime ∧
+    0 < (v2_applyDefaults r).pauseTime := by
+  rw [trans_C02_C11_C12_C13_C19_applyDefaults_v2]
+  simp only [applyDefault, defFlush, defCap, defAudit, defMot, defPause]
+  refine ⟨?_, ?_, ?_, ?_, ?_⟩ <;> split <;> omega
+
+theorem trans_C02_C12_C13_C19_intervals_positive_v1 (r : T_v1_Batcher_cfg) :
+    0 < (v1_applyDefaults r).flushInterval ∧ 0 < (v1_applyDefaults r).capacityInterval ∧
+    0 < (v1_applyDefaults r).auditInterval ∧ 0 < (v1_applyDefaults r).maxOperationTime ∧
+    0 < (v1_applyDefaults r).pauseTime := by
+  rw [trans_C02_C11_C12_C13_C19_applyDefaults_v1]
+  simp only [applyDefault, defFlush, defCap, defAudit, defMot, defPause]
+  refine ⟨?_, ?_, ?_, ?_, ?_⟩ <;> split <;> omega
+
 /-! ### non-vacuity: the translated functions on concrete values (also a readable trace of what they compute) -/
 
 example : v2_incTarget ⟨7⟩ 5 = ⟨12⟩ ∧ v2_incTarget ⟨7⟩ (-5) = ⟨2⟩ ∧ v2_incTarget ⟨7⟩ (-9) = ⟨0⟩ ∧ v2_incTarget ⟨7⟩ 0 = ⟨7⟩ := by decide
@@ -263,5 +349,10 @@ example : (v2_sr_GiveMe ⟨10, 100, 7, 0, 0, []⟩ 28).target = 3 := by decide
 example : v2_sr_partitionCount ⟨10, 5001, 0, 0, 0, []⟩ = 500 := by decide
 example : v1_sr_partitionCount ⟨1000, 500001, 0, 0, 0, []⟩ = (501, "PartitionsOutOfRangeError") := by decide
 example : (v2_sr_clearPartitionId ⟨1, 2, 0, 0, 0, [true, true]⟩ 2).partitions = [true, true] := by decide
+example : v2_enqueueAdmit ⟨true, 0, 0, 0, 0, 0⟩ true true 11 10 3 0 = "TooExpensiveError" ∧
+          v2_enqueueAdmit ⟨false, 0, 0, 0, 0, 0⟩ true true 11 10 3 0 = "" ∧
+          v1_enqueueAdmit ⟨true, 0, 0, 0, 0, 0⟩ true true 10 10 3 3 = "TooManyAttemptsError" ∧
+          v1_enqueueAdmit ⟨true, 0, 0, 0, 0, 0⟩ true false 10 10 3 3 = "NoWatcherError" := by decide
+example : v2_applyDefaults ⟨false, 0, -5, 7, 0, 1⟩ = ⟨false, 100000000, 100000000, 7, 60000000000, 1⟩ := by decide
 
 end GoBatcher.ExpectTrans
